@@ -207,6 +207,8 @@ struct World {
     sent_cookies: Vec<Vec<u8>>,
     // bookkeeping for the oracles
     meas_since_send: usize,
+    /// largest interval of a poll that was answered by a valid RATE (harness bookkeeping)
+    rate_floor: Option<i8>,
     /// the last flag handed to the controller by set_usable
     last_usable_flag: Option<bool>,
     /// datagrams since the last request that were not accepted (forged, NAK, stale, …)
@@ -387,6 +389,7 @@ fn new_world(w: &[&str]) -> World {
         last_seal: None,
         sent_cookies: vec![],
         meas_since_send: 0,
+        rate_floor: None,
         last_usable_flag: None,
         junk_since_send: 0,
         sends: 0,
@@ -553,6 +556,16 @@ fn exec_timer(wd: &mut World, w: &[&str], run: &mut Run, prop: Prop, key: &mut S
             }
             if !(101 * interval_ns <= 100 * tns && 100 * tns <= 105 * interval_ns) {
                 run.oracle_fail("timer_jitter", &format!("poll={} tns={}", poll, tns), "next poll not scheduled within [1.01, 1.05] x interval");
+            }
+        }
+        if matches!(prop, Prop::C09 | Prop::C10) {
+            // harness bookkeeping: a valid RATE answered a poll sent with interval L  =>  every later poll >= L
+            if let Some(floor) = wd.rate_floor {
+                if poll < floor {
+                    run.oracle_fail("c09_rate_not_faster", &format!("poll={} rate_answered_poll={}", poll, floor),
+                        "after a valid RATE answer the source polls faster than the poll that RATE answered");
+                }
+                run.hit("poll-after-valid-rate");
             }
         }
         if prop == Prop::C09 {
@@ -1127,6 +1140,21 @@ fn exec_incoming(wd: &mut World, w: &[&str], run: &mut Run, prop: Prop, key: &mu
             }
         }
     }
+    // harness bookkeeping: a valid RATE answer (bound to the pending request, expected version, stratum 0, RATE code / v5
+    // poll above the poll just used, not an NTS-NAK; NTS: authenticated) to the poll sent with interval `last`
+    if matches!(prop, Prop::C09 | Prop::C10) && rec.is_some() && org_match && uid_bound && within && version_ok && stratum == 0
+        && (!wd.nts || wd.last_s2c_sealed)
+    {
+        let kc = get("kc");
+        let pl: i8 = get("pl").parse().unwrap_or(0);
+        let last = cur.as_ref().map(|c| c.poll as i8).unwrap_or(0);
+        let an = get("an") == "1";
+        let (rate, ntsn) = if version == 5 { (pl > last && pl != 127, an) } else { (kc == "rate", kc == "ntsn") };
+        if rate && !ntsn {
+            wd.rate_floor = Some(wd.rate_floor.map(|f| f.max(last)).unwrap_or(last));
+            run.hit(if wd.source.controller.poll.as_log() < last { "valid-rate-after-desire-dropped" } else { "valid-rate" });
+        }
+    }
     // harness bookkeeping of "a valid unauthenticated DENY/RSTR answer since the last usable answer" (plain sources):
     // bound to the pending request, expected version, stratum 0, DENY/RSTR code (v5: poll 127), not an NTS-NAK, not RATE
     if !wd.nts && rec.is_some() && org_match && uid_bound && within && version_ok && stratum == 0 {
@@ -1321,6 +1349,15 @@ fn exec_case(ops: &[String], run: &mut Run, prop: Prop, rt: &tokio::runtime::Run
                         exec_incoming(wd, &w, run, prop, &mut key);
                     }
                     interesting = true;
+                }
+                "desire" => {
+                    // the controller changes its desired poll interval between two ops (clock step, filter reset, …)
+                    let wd = world.as_mut().expect("cfg first");
+                    let p: i64 = kv(&w, "p").expect("p").parse().expect("p");
+                    wd.source.controller.poll = PollInterval::from_byte(p as i8 as u8);
+                    key.push('d');
+                    let st = state_str(wd);
+                    run.end_op(&format!("ok{}", st));
                 }
                 "accept" => exec_accept(&w, run),
                 _ => run.end_op("bad-op"),
@@ -1771,6 +1808,8 @@ fn gen_script(rng: &mut Rng, prop: Prop) -> Vec<String> {
             0 if prop == Prop::C10 => rng.range(g.min as i64, g.max as i64),
             0 => rng.range(-2, 20),
             1 => g.max as i64,
+            // C09 / C10: long polls more often, so that the controller's desire can DROP before the answer arrives
+            3 | 4 if matches!(prop, Prop::C09 | Prop::C10) => g.max as i64,
             2 => rng.range(g.min as i64, g.max as i64),
             _ => g.min as i64,
         };
@@ -1778,6 +1817,12 @@ fn gen_script(rng: &mut Rng, prop: Prop) -> Vec<String> {
         ops.push(format!("timer dt={} des={}", dt, des));
         since_timer = 0;
         i += 1;
+        if matches!(prop, Prop::C09 | Prop::C10) && rng.chance(1, 3) {
+            // the controller's desired interval changes between the poll and its answer (within the configured limits)
+            let p = if rng.chance(2, 3) { g.min as i64 } else { rng.range(g.min as i64, g.max as i64) };
+            ops.push(format!("desire p={}", p));
+            i += 1;
+        }
         if matches!(prop, Prop::C07 | Prop::C08 | Prop::C09) && rng.chance(1, 8) {
             // an unauthenticated NTS-NAK (clear-text uid) — inert — followed by the genuine answer within the same poll
             let n_nak = rng.usize(1, 2);
